@@ -270,7 +270,7 @@ fn scenario(ctx: &mut Ctx, scratch: &mut Scratch, len: u64, steps: u64, all_poin
 pub fn run(ctx: &mut Ctx, _name: &str) {
     std::panic::set_hook(Box::new(|_| {}));
     let mut scratch = Scratch::new();
-    let n = if ctx.thorough { 200 } else { 14 };
+    let n = if ctx.thorough { 160 } else { 12 };
     for i in 0..n {
         let len = 2 + ctx.rng.below(if ctx.thorough { 14 } else { 8 });
         let steps = 4 + ctx.rng.below(if ctx.thorough { 22 } else { 12 });
